@@ -167,7 +167,21 @@ impl Spec {
             }
         }
         for (k, hit, t) in reads { self.read_record(s, k, hit, t); }
-        for (op, t) in items { if let Op::Insert(k, v) = op { self.fresh_insert_record(s, *k, *v, *t); } }
+        for (op, t) in items {
+            if let Op::Insert(k, v) = op {
+                if let Some(i) = s.p.iter().position(|e| e.key == *k) {
+                    // the write record of an update of a resident (admitted) key: its share of the total is replaced, both stamps
+                    // are the reading of the update, it becomes most recently used in both lists
+                    let w = weight_of(&cfg, *v);
+                    let mut e = s.p.remove(i);
+                    let old_w = e.weight;
+                    e.value = *v; e.weight = w; e.ta = *t; e.tm = *t;
+                    s.p.push(e);
+                    if cfg.ttl.is_some() { s.wo.retain(|x| x != k); s.wo.push(*k); }
+                    s.ws = s.ws.saturating_sub(old_w as u64).saturating_add(w as u64);
+                } else { self.fresh_insert_record(s, *k, *v, *t); }
+            }
+        }
         self.maintenance_tail(s, now);
         s.freqs = PROBES.iter().map(|h| self.sketch.frequency(*h)).collect();
         res.join(",")
@@ -381,11 +395,16 @@ pub fn run_history_c(cfg: Cfg, ops: &[Op]) -> Option<(usize, Finding)> {
     let mut i = 0usize;
     while i < ops.len() {
         // the longest prefix that is a proper batch
-        let mut j = i; let mut inserted: Vec<u8> = Vec::new();
+        // shape of a batch: lookups anywhere (but not of a key written earlier in the batch), then updates of pairwise different
+        // RESIDENT keys, then inserts of pairwise different non-resident keys. Records are applied in call order, so every update
+        // is applied (its in-flight flag cleared) before an admission of the same run can select victims: the known-broken
+        // pending-update window (KF-SYNC-1) stays closed.
+        let mut j = i; let mut inserted: Vec<u8> = Vec::new(); let mut fresh_seen = false;
         while j < ops.len() && j - i < 40 {
             match ops[j] {
                 Op::Get(k) if !inserted.contains(&k) => {}
-                Op::Insert(k, _) if !inserted.contains(&k) && !cur.p.iter().any(|e| e.key == k) => inserted.push(k),
+                Op::Insert(k, _) if !inserted.contains(&k) && !cur.p.iter().any(|e| e.key == k) => { inserted.push(k); fresh_seen = true; }
+                Op::Insert(k, _) if !inserted.contains(&k) && !fresh_seen && cur.p.iter().any(|e| e.key == k) => inserted.push(k),
                 Op::Advance(_) => {}
                 _ => break,
             }
@@ -706,6 +725,7 @@ fn verif_rt_sync() {
         }
         for _ in 0..(1 + rng.below(3)) {
             for _ in 0..rng.below(4) { seq.push(Op::Get(rng.below(8) as u8)); }
+            if rng.below(2) == 0 { seq.push(Op::Insert(rng.below(6) as u8, rng.below(4) as u8)); if rng.below(3) == 0 { seq.push(Op::Advance(2)); } }
             let first = rng.below(8) as u8;
             for d in 0..(2 + rng.below(3)) { seq.push(Op::Insert((first + d as u8) % 8, rng.below(4) as u8)); if rng.below(5) == 0 { seq.push(Op::Advance(2)); } }
             seq.push(Op::Sync);
